@@ -20,6 +20,7 @@ fn main() {
         "resp" => resp::main(rest),
         "conn" => conn::main(rest),
         "store" => store::main(rest),
+        "recover" => store::recover_main(rest),
         "server" => server::main(rest),
         m => {
             eprintln!("unknown mode {}", m);
